@@ -31,7 +31,7 @@ def slug(s):
 
 
 def write_replay(prop_id, bucket, spec, msg, tier, seed):
-    d = os.path.join(core.ROOT, "replays")
+    d = os.path.join(core.ROOT, "replays") if core.REPO == "/repo" else os.path.join(core.ROOT, ".work", "replays-alt")
     os.makedirs(d, exist_ok=True)
     path = os.path.join(d, "%s-%s-%s.json" % (prop_id, slug(bucket), core.spec_hash(spec)))
     with open(path, "w") as f:
@@ -171,7 +171,8 @@ def main(argv=None):
         wall_s=round(wall, 2),
         violations=len(violations),
     )
-    evdir = os.path.join(core.ROOT, "evidence")
+    # runs against a scratch copy (mutation testing) never touch the committed evidence
+    evdir = os.path.join(core.ROOT, "evidence") if core.REPO == "/repo" else os.path.join(core.ROOT, ".work", "evidence-alt")
     os.makedirs(evdir, exist_ok=True)
     with open(os.path.join(evdir, prop.ID + ".json"), "w") as f:
         json.dump(ev, f, indent=1, sort_keys=True, default=str)
